@@ -86,6 +86,9 @@ func init() {
 					feats = append(feats, "topk-tie-not-judged")
 					continue
 				}
+				if id := knownDifferential(c, c.Query, c.Series, c.Start, c.End, c.Step); id != "" {
+					return core.Verdict{Status: "known", Known: id, Features: feats}
+				}
 				return core.Verdict{Status: "violation", Features: feats, Evals: evals,
 					Detail: fmt.Sprintf("query: %s\nwindow: start=%d end=%d step=%d (steps=%d) lookback=%d opt=%q series=%d\nvariant %q differs from base (procs=%d): %s\nvariant: %s\nbase:    %s\n",
 						c.Query, c.Start, c.End, c.Step, c.NumSteps(), c.Lookback, c.Opt, len(c.Series), v.name, c.Procs, d, r, base)}
